@@ -19,7 +19,7 @@ type seedPair struct {
 }
 
 func runC04(c *Ctx) {
-	c.res.Rule = "MnemonicToSeed on: all (m,p) in Sigma^<=2 x Sigma^<=1 and Sigma^<=1 x Sigma^<=2 (thorough: Sigma^<=2 x Sigma^<=2) over a 16-letter Unicode probe alphabet (precomposed/decomposed, full-width, long compatibility expansions, half-width kana + voiced mark, reordering marks, Hangul, ligature, 18-char expansion, astral); Sigma^<=3 for one argument with the other fixed; byte-length ladders 0..300 of 'a', U+00E9 and U+3042 runs for each argument (HMAC block / SHA-512 padding boundaries); every assigned code point whose NFKD differs from itself (5795 non-Hangul; Hangul syllables: all in thorough, every 97th in quick) alone as passphrase and (quick: every second) as mnemonic; combining-mark run probes a+U+0301 x k; valid sentences of all ten languages with stray leading/trailing/doubled white space and changed case; sequential call triples whose arguments concatenate to the same text. Oracle: byte equality with a hand-written PBKDF2-HMAC-SHA512 over CPython-NFKD forms, length 64, fresh slice on every call. distinct_nontrivial = distinct (mnemonic, passphrase) pairs"
+	c.res.Rule = "MnemonicToSeed on: all (m,p) in Sigma^<=2 x Sigma^<=1 and Sigma^<=1 x Sigma^<=2 (thorough: Sigma^<=2 x Sigma^<=2) over a 16-letter Unicode probe alphabet (precomposed/decomposed, full-width, long compatibility expansions, half-width kana + voiced mark, reordering marks, Hangul, ligature, 18-char expansion, astral); Sigma^<=3 for one argument with the other fixed; byte-length ladders 0..300 of 'a', U+00E9 and U+3042 runs for each argument (HMAC block / SHA-512 padding boundaries) and lengths around 512 B, 1 KiB, 4 KiB, 64 KiB; every assigned code point whose NFKD differs from itself (5795 non-Hangul; Hangul syllables: all in thorough, every 97th in quick) alone as passphrase and (quick: every second) as mnemonic; combining-mark run probes a+U+0301 x k; valid sentences of all ten languages with stray leading/trailing/doubled white space and changed case; sequential call triples whose arguments concatenate to the same text. Oracle: byte equality with a hand-written PBKDF2-HMAC-SHA512 over CPython-NFKD forms, length 64, fresh slice on every call. distinct_nontrivial = distinct (mnemonic, passphrase) pairs"
 	c.Assume("CPython unicodedata (Unicode 14) NFKD is the standard NFKD for the assigned code points used", "hand-written PBKDF2 cross-checked against OpenSSL via hashlib on every run")
 
 	var pairs []seedPair
@@ -53,6 +53,21 @@ func runC04(c *Ctx) {
 		for k := 0; k*len(unit) <= 300; k++ {
 			s := strings.Repeat(unit, k)
 			pairs = append(pairs, seedPair{s, "", true, "ladder-mnemonic"}, seedPair{"abandon", s, true, "ladder-passphrase"})
+		}
+	}
+	// lengths around larger powers of two (truncation or chunking at 512 B, 1 KiB, 4 KiB, 64 KiB)
+	for _, n := range []int{511, 512, 513, 1023, 1024, 1025, 4095, 4096, 4097, 65535, 65536, 65537} {
+		for _, unit := range []string{"a", "\u00e9"} {
+			s := strings.Repeat(unit, n/len(unit)+1)[:n/len(unit)*len(unit)]
+			pairs = append(pairs, seedPair{s, "", false, "long-mnemonic"}, seedPair{"abandon", s, false, "long-passphrase"})
+		}
+	}
+	for pad := 0; pad < 5; pad++ {
+		// misordered marks at every alignment in a long text (chunked normalisers, see C11)
+		raw := strings.Repeat("x", pad) + strings.Repeat("a\u0301\u0323", 14000)
+		pairs = append(pairs, seedPair{raw, "", false, "long-misordered-marks"})
+		if c.Thorough {
+			pairs = append(pairs, seedPair{"abandon", raw, false, "long-misordered-marks"})
 		}
 	}
 	for _, k := range []int{1, 2, 29, 30, 31, 32, 64} {
